@@ -156,6 +156,9 @@ func (s *Sym) MakeFn(name string, args ...*RF) *RF {
 			if at := args[0].SingleAtom(); at != nil && at.Name == "copyof" {
 				return s.MakeFn("len", at.Args[0])
 			}
+			if at := args[0].SingleAtom(); at != nil && strings.HasPrefix(at.Name, "makeslice:") && len(at.Args) == 1 {
+				return at.Args[0]
+			}
 		}
 	case "builtin:append":
 		// append([]T(nil), xs...) is a fresh copy of xs (the same thing as make+copy)
